@@ -461,10 +461,14 @@ class FunctionAnalysis:
                     if (isinstance(op, op_t) and truth) or (isinstance(op, op_f) and not truth):
                         env["__bounds__"] = frozenset(env.get("__bounds__", frozenset()) | {(a.id, b.args[0].id)})
             # len(x) < n  (false)  => len >= n ;  len(x) != n false => len == n ; len(x) >= n true
+            FLIP = {ast.Lt: ast.Gt, ast.Gt: ast.Lt, ast.LtE: ast.GtE, ast.GtE: ast.LtE, ast.Eq: ast.Eq, ast.NotEq: ast.NotEq}
+            op0 = test.ops[0]
+            if isinstance(l, ast.Constant) and isinstance(r, ast.Call) and type(op0) in FLIP:
+                l, r, op0 = r, l, FLIP[type(op0)]()  # n > len(x)  ==  len(x) < n
             if isinstance(l, ast.Call) and isinstance(l.func, ast.Name) and l.func.id == "len" and l.args \
                     and isinstance(l.args[0], ast.Name) and isinstance(r, ast.Constant) and isinstance(r.value, int) \
                     and l.args[0].id in env:
-                n, op, name = r.value, test.ops[0], l.args[0].id
+                n, op, name = r.value, op0, l.args[0].id
                 v = env[name]
                 lo = None
                 if isinstance(op, ast.Lt) and not truth:
@@ -479,6 +483,10 @@ class FunctionAnalysis:
                     lo = n
                 elif isinstance(op, ast.Eq) and truth:
                     lo = n
+                elif isinstance(op, ast.Eq) and not truth and n == 0:
+                    lo = 1
+                elif isinstance(op, ast.NotEq) and truth and n == 0:
+                    lo = 1
                 if lo is not None:
                     env[name] = Val(v.kinds, v.untrusted, v.hashable, max(v.minlen, lo))
             if isinstance(test.ops[0], (ast.Is, ast.IsNot)) and isinstance(r, ast.Constant) and r.value is None \
